@@ -394,6 +394,98 @@ def lower_map_transpose(j, baseline, skip=()):
     return n
 
 
+VALUE_MAPS = {'std::result::Result::<T, E>::map': 'Result', 'std::option::Option::<T>::map': 'Option'}
+
+
+def lower_effect_map(j, baseline, skip=()):
+    """`r.map(closure)` on a Result / Option where the closure captures a `&mut` (it is called for what it does: `.map(|v| out.push(v))`)
+    becomes the match it abbreviates, with the closure called directly (and then spliced): Ok(x) => Ok(closure(x)), Err(e) => Err(e).
+    A closure that captures nothing mutable only computes a value and stays a value."""
+    fns = {f['path']: f for f in j['fns'] if f['label'] == 'fn'}
+    n = 0
+    for f in j['fns']:
+        if f['label'] != 'fn' or f['path'].split('::{closure')[0] in skip:
+            continue
+        closure_of = {}
+        for b in f['blocks']:
+            for s_ in b['stmts']:
+                if s_['k'] == 'assign' and not s_['place']['p'] and s_['rv']['k'] == 'aggregate' and s_['rv']['kind'].get('a') == 'closure':
+                    closure_of[s_['place']['l']] = (s_['rv']['kind']['path'], s_['rv']['ops'])
+        for b in list(f['blocks']):
+            t = b['term']
+            if t['k'] != 'call' or b.get('cleanup') or t['func'].get('def') not in VALUE_MAPS or len(t['args']) != 2 or t.get('target') is None or t['dest']['p']:
+                continue
+            kind = VALUE_MAPS[t['func']['def']]
+            r, cl = t['args']
+            if r.get('k') not in ('move', 'copy') or r['place']['p'] or cl.get('k') not in ('move', 'copy') or cl['place']['p'] or cl['place']['l'] not in closure_of:
+                continue
+            cp, cops = closure_of[cl['place']['l']]
+            cb = fns.get(cp)
+            if cb is None or cb.get('kind') != 'Closure' or cb['argc'] != 2:
+                continue
+            if not any(o.get('k') in ('move', 'copy') and o['place'].get('ty', '').startswith('&mut ') for o in cops):
+                continue
+            g = t['func'].get('gargs', [])
+            if (kind == 'Result' and len(g) < 3) or (kind == 'Option' and len(g) < 2):
+                continue
+            tpay = g[0]
+            terr = g[1] if kind == 'Result' else None
+            tu = cb['locals'][0]['ty']
+            rl = r['place']['l']
+            tr = r['place']['ty']
+            line = t.get('span', {}).get('l0', 0)
+            span = t.get('span')
+            f.setdefault('orig_nlocals', len(f['locals']))
+
+            def newlocal(ty):
+                f['locals'].append({'i': len(f['locals']), 'ty': ty, 'name': None, 'mut': True})
+                return len(f['locals']) - 1
+
+            def pl(l, ty):
+                return {'l': l, 'p': [], 'ty': ty}
+
+            def adt(path, variant, vidx, fields, ops):
+                return {'k': 'aggregate', 'kind': {'a': 'adt', 'path': path, 'variant': variant, 'vidx': vidx, 'fields': fields, 'union_field': -1}, 'ops': ops}
+
+            def asg(place, rv):
+                return {'k': 'assign', 'place': place, 'rv': rv, 'line': line}
+            okv, oki, badv, badi = ('Ok', 0, 'Err', 1) if kind == 'Result' else ('Some', 1, 'None', 0)
+            hd = 'std::result::Result' if kind == 'Result' else 'std::option::Option'
+            dest = copy.deepcopy(t['dest'])
+            cont = t['target']
+            ld, lpay, ltup, lu = newlocal('isize'), newlocal(tpay), newlocal('(%s,)' % tpay), newlocal(tu)
+            nbk = len(f['blocks'])
+            b_ok, b_ok2, b_bad, b_un = nbk, nbk + 1, nbk + 2, nbk + 3
+            b['stmts'].append(asg(pl(ld, 'isize'), {'k': 'discr', 'place': pl(rl, tr)}))
+            b['term'] = {'k': 'switch', 'discr': {'k': 'move', 'place': pl(ld, 'isize')}, 'arms': [[str(oki), b_ok], [str(badi), b_bad]], 'otherwise': b_un, 'span': span}
+            pay = {'l': rl, 'p': [{'k': 'downcast', 'variant': okv, 'i': oki}, {'k': 'field', 'i': 0, 'name': '0', 'ty': tpay}], 'ty': tpay}
+            cfunc = {'def': 'std::ops::FnOnce::call_once', 'krate': 'core', 'local': False, 'gargs': [], 'trait': 'std::ops::FnOnce', 'res': cp,
+                     'res_krate': '', 'res_local': True, 'res_kind': 'Item'}
+            ops = [{'k': 'move', 'place': pl(lpay, tpay)}]
+            f['blocks'].append({'i': b_ok, 'cleanup': False, 'stmts': [
+                asg(pl(lpay, tpay), {'k': 'use', 'op': {'k': 'move', 'place': pay}}),
+                asg(pl(ltup, '(%s,)' % tpay), {'k': 'aggregate', 'kind': {'a': 'tuple'}, 'ops': copy.deepcopy(ops)})],
+                'term': {'k': 'call', 'func': cfunc, 'args': [copy.deepcopy(cl), {'k': 'move', 'place': pl(ltup, '(%s,)' % tpay)}], 'dest': pl(lu, tu),
+                         'target': b_ok2, 'unwind': t.get('unwind', 'Continue'), 'span': span, 'spread_ops': copy.deepcopy(ops)}})
+            f['blocks'].append({'i': b_ok2, 'cleanup': False, 'stmts': [asg(copy.deepcopy(dest), adt(hd, okv, oki, ['0'], [{'k': 'move', 'place': pl(lu, tu)}]))],
+                                'term': {'k': 'goto', 'target': cont}})
+            if kind == 'Result':
+                le = newlocal(terr)
+                errp = {'l': rl, 'p': [{'k': 'downcast', 'variant': 'Err', 'i': 1}, {'k': 'field', 'i': 0, 'name': '0', 'ty': terr}], 'ty': terr}
+                bad = [asg(pl(le, terr), {'k': 'use', 'op': {'k': 'move', 'place': errp}}), asg(copy.deepcopy(dest), adt(hd, 'Err', 1, ['0'], [{'k': 'move', 'place': pl(le, terr)}]))]
+            else:
+                bad = [asg(copy.deepcopy(dest), adt(hd, 'None', 0, [], []))]
+            f['blocks'].append({'i': b_bad, 'cleanup': False, 'stmts': bad, 'term': {'k': 'goto', 'target': cont}})
+            f['blocks'].append({'i': b_un, 'cleanup': False, 'stmts': [], 'term': {'k': 'unreachable'}})
+            rls = f.setdefault('ret_locals', [])
+            for l_ in (rl, dest['l']):
+                if l_ not in rls:
+                    rls.append(l_)
+            f.setdefault('lowered_consumers', []).append(cp)
+            n += 1
+    return n
+
+
 CONSUMERS = {'std::iter::Iterator::fold': ('fold', False), 'std::iter::Iterator::try_fold': ('try_fold', True),
              'std::iter::Iterator::for_each': ('for_each', False), 'std::iter::Iterator::try_for_each': ('try_for_each', True)}
 
@@ -592,9 +684,39 @@ def inline_new_helpers(j):
                         work.append(r)
         lower_and_then(j, baseline, skip)
         lower_map_transpose(j, baseline, skip | keep)
+        lower_effect_map(j, baseline, skip | keep)
         lower_consumers(j, baseline, set(baseline.get('consumer_parents', [])))
     info = {'candidates': sorted(cands), 'spliced': {}, 'removed': []}
     fns = {f['path']: f for f in j['fns'] if f['label'] == 'fn'}
+    # a new helper that is generic over the implementor of a crate trait (the provided method of a new private extension trait, a
+    # helper `fn f<T: TranscriptProtocol>(t: &mut T)`) calls the trait's methods unresolved; when the crate has one implementation
+    # of that trait, that is the one the helper reaches once it is spliced into its (concrete) caller
+    impls_of = {}
+    for im in j.get('impls', []):
+        impls_of.setdefault(im.get('trait'), []).append(im)
+    for pth in cands:
+        f = fns.get(pth)
+        if f is None:
+            continue
+        for b in f['blocks']:
+            t = b['term']
+            if t['k'] != 'call' or 'indirect' in t['func']:
+                continue
+            fu = t['func']
+            if fu.get('res') or not fu.get('local') or not fu.get('trait') or not fu.get('gargs'):
+                continue
+            if not re.match(r'^[A-Z]\w*$', fu['gargs'][0]) or '::' in fu['gargs'][0]:
+                continue
+            ims = impls_of.get(fu['trait'], [])
+            if len(ims) != 1:
+                continue
+            want = '<%s as %s>::%s' % (ims[0]['self_ty'], fu['trait'], fu['def'].split('::')[-1])
+            if want in ims[0].get('items', []) and want in fns:
+                fu['res'] = want
+                fu['res_local'] = True
+                fu['res_krate'] = fu.get('krate', '')
+                fu['res_kind'] = 'Item'
+                fu['devirtualised'] = True
     # closures that are called directly (`let fail = |m| Err(..); return fail(..)`) are local helper functions: spliced at the call,
     # except in the functions that already called closures directly at the baseline (the rules read those as they are)
     keep_parents = set((baseline or {}).get('direct_closure_parents', [])) if baseline else None
